@@ -708,6 +708,23 @@ func runSkip(sc *streamScenario, rec *recorder) {
 		return nil, false, nil
 	}
 	data("parserFail", full, astits.DemuxerOptPacketsParser(failing))
+	// an observer that hands back data of its own together with skip=false: the default output is unchanged all the same - also for
+	// units that are neither PSI nor PES (a payload without start code, the CAT PID), whose default output is nothing
+	mk := func(pid int, cc int, first byte) []byte {
+		b := make([]byte, 188)
+		for j := range b {
+			b[j] = first
+		}
+		b[0], b[1], b[2], b[3] = 0x47, 0x40|byte(pid>>8), byte(pid), 0x10|byte(cc)
+		return b
+	}
+	full2 := append(append([]byte(nil), full...), mk(0x1ff0, 3, 0x55)...)
+	full2 = append(append(full2, mk(1, 7, 0x55)...), mk(0x1ff0, 4, 0x66)...)
+	data("base2", full2)
+	withData := func(ps []*astits.Packet) ([]*astits.DemuxerData, bool, error) {
+		return []*astits.DemuxerData{{PID: 0x1eee}}, false, nil
+	}
+	data("parserObsDs", full2, astits.DemuxerOptPacketsParser(withData))
 }
 
 func pidOfSpec(p *pktSpec) int {
